@@ -92,13 +92,18 @@ def gen_cases(ctx):
               (0.5, -2., 2., -3., 1.), (0.5, -inf, inf, -inf, 1.), (2., -2., 2., -1., 1.), (0.5, -2., 2., -1.9999, -1.9998), (0.5, 2. - 4e-16, 2., 2. - 4e-16, 2.),
               (0.5, nan, 2., -1., 1.), (0.5, -2., 2., nan, 1.), (0.05, 0.01, 100., 0.1, 10.), (1e11, 1., 1e12, 10., 1e11), (3., -2., 2., -1., 1.)]
     present = [(1, 1, 1, 1, 1), (0, 1, 1, 1, 1), (1, 0, 0, 1, 1), (1, 1, 1, 0, 0), (0, 1, 1, 0, 0), (1, 0, 0, 0, 0), (0, 0, 0, 1, 1), (1, 1, 1, 0, 1), (0, 0, 0, 0, 0), (1, 1, 0, 1, 1)]
+    # D = 2: EVERY ordered pair of coordinate tuples with all vectors present (so that cross-coordinate effects of the
+    # any()/sum() style tests are met), then random pairs/triples with the presence patterns
+    for c1 in coords:
+        for c2 in coords:
+            c = {"D": 2}
+            for j, k in enumerate(("x0", "lb", "ub", "plb", "pub")):
+                c[k] = [c1[j], c2[j]]
+            cases.append(c)
     for D in (2, 3):
-        combos = list(itertools.product(coords, repeat=D)) if D == 2 else None
-        n = (500 if ctx.quick else len(combos) * 2) if D == 2 else (300 if ctx.quick else 4000)
+        n = (250 if ctx.quick else 2500) if D == 2 else (300 if ctx.quick else 4000)
         for _ in range(n):
-            cs = [rng.choice(coords) for _ in range(D)] if (D == 3 or ctx.quick) else None
-            if cs is None:
-                cs = combos[len(cases) % len(combos)]
+            cs = [rng.choice(coords) for _ in range(D)]
             pr = rng.choice(present)
             c = {"D": D}
             for j, k in enumerate(("x0", "lb", "ub", "plb", "pub")):
